@@ -12,10 +12,12 @@ Out  == IOEnv.VERIF_OUT
 N(big) == IF Tier = "quick" THEN (IF big THEN 60 ELSE 12) ELSE (IF big THEN 15000 ELSE 1000)
 
 Common == {"valid", "xplusp", "nonsubgroup", "offcurve", "random"}
+YSide  == {"yhalf", "yhalf64", "yhalf128", "yhalf192", "ytop"}     \* points built from the y side: boundary of the sign choice, limb by limb
 Edge   == {"zero", "one", "p-1", "p", "max", "small", "short", "long", "empty", "half"}
-UncOnly == {"wrongsign", "yplusp", "yother", "yzero"}
+UncOnly == {"wrongsign", "yplusp", "yother", "yzero", "yhalf_wrong"}
 Cases == {[fn |-> f, cls |-> c, n |-> N(TRUE)] : f \in {"SetBytes", "SetBytesUncompressed", "ReadPoint"}, c \in Common}
          \cup {[fn |-> f, cls |-> c, n |-> N(FALSE)] : f \in {"SetBytes", "SetBytesUncompressed", "ReadPoint"}, c \in Edge}
+         \cup {[fn |-> f, cls |-> c, n |-> N(FALSE)] : f \in {"SetBytes", "SetBytesUncompressed", "ReadPoint"}, c \in YSide}
          \cup {[fn |-> "SetBytesUncompressed", cls |-> c, n |-> N(TRUE)] : c \in UncOnly}
 
 VARIABLE done
